@@ -21,7 +21,8 @@ CONSTANTS NMsgs, MaxOps, MaxObjs, D,
           Sizes,        \* struct sizes <<dw, pc>> offered to newstruct / newcomp
           ListShapes,   \* <<k, n>> offered to newlist
           CompLens,     \* element counts offered to newcomp
-          Ops           \* enabled operation names
+          Ops,          \* enabled operation names
+          Plan          \* <<>> or a sequence of sets of operation names: step i may only use an operation of Plan[i]
 
 VARIABLES objs, roots, captab, hist
 vars == <<objs, roots, captab, hist>>
@@ -119,23 +120,26 @@ CopyStructInto(st, s, dw, pc, sm, dst) ==
 Exp(os, rs) == [m \in Msgs |-> Tree(os, rs[m], D)]
 Record(op, os, rs) == hist' = Append(hist, [op EXCEPT !.exp = Exp(os, rs), !.captab = captab'])
 OpRec(name) == [op |-> name, exp |-> <<>>, captab |-> <<>>]
+Allowed(name) == name \in Ops /\ (Plan = <<>> \/ (Len(hist) < Len(Plan) /\ name \in Plan[Len(hist) + 1]))
 Room == Len(objs) < MaxObjs /\ Len(hist) < MaxOps
 Tick == Len(hist) + 1                       \* used to make every written value distinguishable
 
 NewStructObj(m, z) == [t |-> "struct", h |-> TRUE, m |-> m, d |-> [i \in 1..z[1] |-> ZeroW], p |-> [i \in 1..z[2] |-> NullRef]]
 
-NewRoot == /\ "newroot" \in Ops /\ Room
-           /\ \E m \in Msgs, z \in Sizes :
+\* the API takes the data size in bytes and rounds it up to whole words
+DataBytes(dw) == IF dw = 0 THEN {0} ELSE {8 * dw, 8 * dw - 5}
+NewRoot == /\ Allowed("newroot") /\ Room
+           /\ \E m \in Msgs, z \in Sizes : \E db \in DataBytes(z[1]) :
                 LET os == Append(objs, NewStructObj(m, z))
                     rs == [roots EXCEPT ![m] = ObjRef(Len(os))] IN
                 /\ objs' = os /\ roots' = rs /\ UNCHANGED captab
-                /\ Record(OpRec("newroot") @@ [m |-> m, dw |-> z[1], pc |-> z[2], id |-> Len(os)], os, rs)
+                /\ Record(OpRec("newroot") @@ [m |-> m, dw |-> z[1], db |-> db, pc |-> z[2], id |-> Len(os)], os, rs)
 
-NewStruct == /\ "newstruct" \in Ops /\ Room
-             /\ \E m \in Msgs, z \in Sizes :
+NewStruct == /\ Allowed("newstruct") /\ Room
+             /\ \E m \in Msgs, z \in Sizes : \E db \in DataBytes(z[1]) :
                   LET os == Append(objs, NewStructObj(m, z)) IN
                   /\ objs' = os /\ UNCHANGED <<roots, captab>>
-                  /\ Record(OpRec("newstruct") @@ [m |-> m, dw |-> z[1], pc |-> z[2], id |-> Len(os)], os, roots)
+                  /\ Record(OpRec("newstruct") @@ [m |-> m, dw |-> z[1], db |-> db, pc |-> z[2], id |-> Len(os)], os, roots)
 
 \* data writes: width in bits; off in units of the width; value derived from the step number
 SetByte(w, i, b) == [w EXCEPT ![i] = b]
@@ -150,7 +154,7 @@ FlipBit(b, bit) == IF BitOf(b, bit) = 1 THEN b - (2 ^ bit) ELSE b + (2 ^ bit)
 DataAfter(d, wd, off, t) ==
   IF wd = 1 THEN WriteBytes(d, off \div 8, <<FlipBit(GetByte(d, off \div 8), off % 8)>>)
   ELSE WriteBytes(d, off * (wd \div 8), ValBytes(wd \div 8, t))
-SetData == /\ "setdata" \in Ops /\ Len(hist) < MaxOps
+SetData == /\ Allowed("setdata") /\ Len(hist) < MaxOps
            /\ \E ts \in StructTargets : ValidT(ts) /\ Len(GetS(objs, ts).d) > 0 /\
               \E wd \in {1, 8, 16, 32, 64} :
               \E off \in { 0, ((Len(GetS(objs, ts).d) * 64) \div wd) - 1, 3 } :
@@ -177,7 +181,7 @@ Assign(src, dm) ==
 ContainerId(ts) == ts.id
 NoCycle(ts, ref) == ref.r # "obj" \/ ContainerId(ts) \notin ReachR(objs, ref, D + 2)
 
-SetPtr == /\ "setptr" \in Ops /\ Len(hist) < MaxOps
+SetPtr == /\ Allowed("setptr") /\ Len(hist) < MaxOps
           /\ \E ts \in StructTargets : ValidT(ts) /\
              LET s == GetS(objs, ts) IN
              \E i \in 1..Len(s.p) :
@@ -200,23 +204,23 @@ SetPtr == /\ "setptr" \in Ops /\ Len(hist) < MaxOps
                         /\ Record(OpRec("setptr") @@ [tgt |-> ts, i |-> i - 1, src |-> se], os, roots)
 
 ElemZero(k) == CASE k = 1 -> 0 [] k = 2 -> <<0>> [] k = 3 -> <<0, 0>> [] k = 4 -> <<0, 0, 0, 0>> [] k = 5 -> ZeroW [] k = 6 -> NullRef
-NewList == /\ "newlist" \in Ops /\ Room
+NewList == /\ Allowed("newlist") /\ Room
            /\ \E m \in Msgs, z \in ListShapes :
                 LET o == [t |-> "list", h |-> TRUE, m |-> m, k |-> z[1], n |-> z[2], e |-> IF z[1] = 0 THEN <<>> ELSE [i \in 1..z[2] |-> ElemZero(z[1])]]
                     os == Append(objs, o) IN
                 /\ objs' = os /\ UNCHANGED <<roots, captab>>
                 /\ Record(OpRec("newlist") @@ [m |-> m, k |-> z[1], n |-> z[2], id |-> Len(os)], os, roots)
 
-NewComp == /\ "newcomp" \in Ops /\ Room
-           /\ \E m \in Msgs, z \in Sizes, n \in CompLens :
+NewComp == /\ Allowed("newcomp") /\ Room
+           /\ \E m \in Msgs, z \in Sizes, n \in CompLens : \E db \in DataBytes(z[1]) :
                 LET o == [t |-> "list", h |-> TRUE, m |-> m, k |-> 7, n |-> n,
                           e |-> [i \in 1..n |-> [d |-> [j \in 1..z[1] |-> ZeroW], p |-> [j \in 1..z[2] |-> NullRef]]]]
                     os == Append(objs, o) IN
                 /\ objs' = os /\ UNCHANGED <<roots, captab>>
-                /\ Record(OpRec("newcomp") @@ [m |-> m, dw |-> z[1], pc |-> z[2], n |-> n, id |-> Len(os)], os, roots)
+                /\ Record(OpRec("newcomp") @@ [m |-> m, dw |-> z[1], db |-> db, pc |-> z[2], n |-> n, id |-> Len(os)], os, roots)
 
 ElemBytes(k) == CASE k = 2 -> 1 [] k = 3 -> 2 [] k = 4 -> 4 [] k = 5 -> 8
-SetElem == /\ "setelem" \in Ops /\ Len(hist) < MaxOps
+SetElem == /\ Allowed("setelem") /\ Len(hist) < MaxOps
            /\ \E l \in { j \in 1..Len(objs) : objs[j].t = "list" /\ objs[j].k \in 1..5 /\ objs[j].h } :
               \E x \in { 1, objs[l].n } : x >= 1 /\ x <= objs[l].n /\
                 LET k == objs[l].k
@@ -226,7 +230,7 @@ SetElem == /\ "setelem" \in Ops /\ Len(hist) < MaxOps
                 /\ Record(OpRec("setelem") @@ [list |-> l, idx |-> x - 1, k |-> k, val |-> IF k = 1 THEN <<v>> ELSE v], os, roots)
 
 \* PointerList.Set
-SetPList == /\ "setplist" \in Ops /\ Len(hist) < MaxOps
+SetPList == /\ Allowed("setplist") /\ Len(hist) < MaxOps
             /\ \E l \in { j \in 1..Len(objs) : objs[j].t = "list" /\ objs[j].k = 6 /\ objs[j].h } :
                \E x \in 1..objs[l].n, src \in Sources :
                  /\ (src.r # "obj" \/ l \notin ReachR(objs, src, D + 2))
@@ -238,7 +242,7 @@ SetPList == /\ "setplist" \in Ops /\ Len(hist) < MaxOps
 
 \* Struct.SetText / SetData with a fresh byte list (text carries the NUL terminator)
 TextChoices == { <<>>, <<104>>, <<104, 105, 33>>, <<49, 50, 51, 52, 53, 54, 55>>, <<49, 50, 51, 52, 53, 54, 55, 56>> }
-SetText == /\ "settext" \in Ops /\ Room
+SetText == /\ Allowed("settext") /\ Room
            /\ \E ts \in StructTargets : ValidT(ts) /\
               LET s == GetS(objs, ts) IN
               \E i \in 1..Len(s.p), tx \in TextChoices, kind \in {"text", "newtext", "data"} :
@@ -252,8 +256,8 @@ SetText == /\ "settext" \in Ops /\ Room
 
 \* List.SetStruct(i, s) and Struct.CopyFrom(s): copy with truncation / zero extension
 StructSources == { ts \in StructTargets : ValidT(ts) }
-SetStruct == /\ "setstruct" \in Ops /\ Len(hist) < MaxOps /\ Len(objs) + 3 <= MaxObjs
-             /\ \E dst \in { ts \in StructTargets : ValidT(ts) /\ (IF ts.k = "elem" THEN TRUE ELSE "copyfrom" \in Ops) }, src \in StructSources :
+SetStruct == /\ (Allowed("setstruct") \/ Allowed("copyfrom")) /\ Len(hist) < MaxOps /\ Len(objs) + 3 <= MaxObjs
+             /\ \E dst \in { ts \in StructTargets : ValidT(ts) /\ (IF ts.k = "elem" THEN Allowed("setstruct") ELSE Allowed("copyfrom")) }, src \in StructSources :
                   /\ dst # src
                   /\ (IF dst.k = "elem" /\ src.k = "elem" THEN src.id # dst.id ELSE TRUE)
                   /\ ContainerId(dst) \notin ReachS(objs, GetS(objs, src), D + 2)
@@ -263,7 +267,7 @@ SetStruct == /\ "setstruct" \in Ops /\ Len(hist) < MaxOps /\ Len(objs) + 3 <= Ma
                      /\ objs' = os /\ captab' = r.st.captab /\ UNCHANGED roots
                      /\ Record(OpRec(IF dst.k = "elem" THEN "setstruct" ELSE "copyfrom") @@ [tgt |-> dst, src |-> src], os, roots)
 
-SetRoot == /\ "setroot" \in Ops /\ Len(hist) < MaxOps /\ Len(objs) + 4 <= MaxObjs
+SetRoot == /\ Allowed("setroot") /\ Len(hist) < MaxOps /\ Len(objs) + 4 <= MaxObjs
            /\ \E m \in Msgs, src \in Sources :
                 /\ src.r # "cap"
                 /\ LET r == Assign(src, m)
